@@ -204,8 +204,10 @@ func encodeResults(rs []res, ntable int) string {
 			ms = append(ms, hx.HexS(u)+":"+hx.F64(p.Values[i]))
 		}
 		var tv []string
-		for _, t := range p.Table {
-			tv = append(tv, hx.HexS(t))
+		// the table tuple: the result's own values of the table keys (a plain config-key projection yields exactly
+		// these), NOT read back from the interned Key, so that a key-identity defect cannot hide in the case line
+		for i := range p.Table {
+			tv = append(tv, hx.HexS(res.GetConfig(tableKeys[i])))
 		}
 		parts = append(parts, strings.Join([]string{strings.Join(tv, "+"), hx.HexS(p.Bench), hx.HexS(p.Exp), hx.HexS(p.Ser), hx.HexS(p.Cmp),
 			hx.HexS(p.NumHash), hx.HexS(p.DenHash), strings.Join(ms, ",")}, "|"))
@@ -878,6 +880,40 @@ func dupUnitCases(r *hx.Rand) {
 		addDupUnits(r, rs, rd)
 		viaReader = rd
 		seriesCase(rs, nt, r.Intn(2), r, append(tags, "dupunit"))
+		viaReader = false
+	}
+}
+
+// collideCases: a two-key table projection whose value tuples concatenate alike (arm/64hf vs arm64/hf, 1/16 vs
+// 11/6, 1/12 vs 11/2): they are different tables and must stay apart (tables are keyed by the tuple).
+func collideCases(r *hx.Rand) {
+	pairs := [][2][]string{{{"arm", "64hf"}, {"arm64", "hf"}}, {{"1", "16"}, {"11", "6"}}, {{"1", "12"}, {"11", "2"}}, {{"a", "bc"}, {"ab", "c"}}}
+	mk := func(tb []string, role string, v float64) res {
+		return res{table: tb, bench: "Foo", exp: expsA[0], ser: stampsA[0], role: role, nh: "n0", dh: "d0", units: []string{"B/op"}, vals: []float64{v}}
+	}
+	for pi, p := range pairs[:3] {
+		rs := []res{mk(p[0], "num", 1), mk(p[0], "den", 2), mk(p[1], "num", 30), mk(p[1], "den", 40), mk(p[0], "num", 3)}
+		viaReader = pi == 1
+		for pol := 0; pol < 2; pol++ {
+			seriesCase(rs, 2, pol, r, []string{"corpus", "collide", "multitable"})
+		}
+	}
+	viaReader = false
+	n := hx.N(30, 450)
+	for i := 0; i < n; i++ {
+		rs, _, tags := genSeries(r, 3+r.Intn(6))
+		p := pairs[r.Intn(len(pairs))]
+		for a := range rs {
+			rs[a].table = p[r.Intn(2)]
+			for b := range rs[a].units {
+				rs[a].units[b] = []string{"B/op", "allocs/op", "widgets/op"}[b%3]
+			}
+		}
+		viaReader = r.Bool()
+		if viaReader {
+			tags = append(tags, "reader")
+		}
+		seriesCase(rs, 2, r.Intn(2), r, append(tags, "collide", "multitable"))
 		viaReader = false
 	}
 }
@@ -1893,6 +1929,7 @@ func main() {
 	filteredCases(r)
 	readerCases(r)
 	dupUnitCases(r)
+	collideCases(r)
 	nl := hx.N(60, 1000)
 	for i := 0; i < nl; i++ {
 		rs, nt, tags := genSeries(r, 6+r.Intn(20))
